@@ -20,10 +20,19 @@ def num_plain(n, d):
     return s
 
 
-def expr(t, spell=None):
-    """spell: None = plain; else a function (n, d, ctx) -> text for constants"""
+def expr(t, spell=None, logic=False):
+    """spell: None = plain; else a function (n, d) -> text for constants.
+    logic=True: the tree sits in a logic operand position, where the text language wants
+    Boolean literals (true / false) instead of the numbers 1 / 0."""
     op = t["op"]
     if op == "num":
+        if "f" in t:
+            v = t["f"]
+            return repr(v) if v >= 0 else f"(-{repr(-v)})"
+        if t["d"] == 0:
+            return "Infinity" if t["n"] > 0 else "MinusInfinity" if t["n"] < 0 else "(Infinity - Infinity)"
+        if logic and t["d"] == 1 and t["n"] in (0, 1):
+            return "true" if t["n"] == 1 else "false"
         if spell:
             return spell(t["n"], t["d"])
         return fmt_num(t["n"], t["d"])
@@ -32,19 +41,19 @@ def expr(t, spell=None):
     if op in KW:
         return f"({expr(t['a'], spell)} {KW[op]} {expr(t['b'], spell)})"
     if op in LOGIC:
-        return f"({expr(t['a'], spell)} {LOGIC[op]} {expr(t['b'], spell)})"
+        return f"({expr(t['a'], spell, True)} {LOGIC[op]} {expr(t['b'], spell, True)})"
     if op == "neg":
         return f"(-({expr(t['a'], spell)}))"
     if op in ("not", "u_not"):
-        return f"(not ({expr(t['a'], spell)}))"
+        return f"(not ({expr(t['a'], spell, True)}))"
     if op == "abs":
         return f"abs{{ {expr(t['a'], spell)} }}"
     if op in ("min", "max"):
         return f"{op}{{ {', '.join(expr(a, spell) for a in t['args'])} }}"
     if op in ("and", "or"):
         if not t["args"]:
-            return "1" if op == "and" else "0"
-        return "(" + f" {op} ".join(expr(a, spell) for a in t["args"]) + ")"
+            return "true" if op == "and" else "false"
+        return "(" + f" {op} ".join(expr(a, spell, True) for a in t["args"]) + ")"
     raise ValueError(op)
 
 
@@ -85,7 +94,7 @@ def model_text(case, spell=None, consts=None):
     for c in case["cons"]:
         nm = f"{c['name']}: " if c.get("name") else ""
         if c.get("assert"):
-            lines.append(f"    {nm}{expr(c['lhs'], spell)}")
+            lines.append(f"    {nm}{expr(c['lhs'], spell, True)}")
         else:
             lines.append(f"    {nm}{expr(c['lhs'], spell)} {CMP[c['cmp']]} {expr(c['rhs'], spell)}")
     if not case["cons"]:
